@@ -43,6 +43,18 @@ Theorem C02_encode_impl_roundtrip : forall dt nc g a buf,
 Proof. exact encode_impl_roundtrip. Qed.
 Print Assumptions C02_encode_impl_roundtrip.
 
+(* The package decoder is SOUND w.r.t. the specification on arbitrary bytes (no
+   well-formedness hypothesis, bytes need not even be below 256): whenever it
+   accepts a byte string, every voxel of the array it returns is exactly the
+   value the specification decoder reads from those bytes.  So a file decodes
+   the same way here as in any reader following the format document. *)
+Theorem C02_decoder_agrees_with_spec : forall dt nc g cx cy cz buf a,
+  cseg_decode dt nc g cx cy cz buf = Ok a ->
+  forall c z y x, c < nc -> z < cz -> y < cy -> x < cx ->
+    spec_value dt buf cy cx (g_bx g) (g_by g) (g_bz g) c z y x = Some (get4 a c z y x).
+Proof. exact cseg_decode_sound. Qed.
+Print Assumptions C02_decoder_agrees_with_spec.
+
 (* Non-vacuity: below the format's own 24-bit offset limit (stated as a bound
    computed from the shapes alone) the encoder does return bytes: no other
    failure exists (pad_block's argmax on an empty block, the 2^32-label
